@@ -166,3 +166,44 @@ char *vp_opml_to_text(const char *src) {
 	POOL_DRAIN();
 	return out;
 }
+
+/* ---- C05: histories in one process */
+void vp_pool(int op) { if (op == 0) POOL_INIT(); else if (op == 1) POOL_DRAIN(); else POOL_FREE(); }
+/* raw calls without pool bracketing (the caller brackets once per process, as the CLI does) */
+char *vp_raw_convert(const char *src, unsigned long ext, int fmt, int lang) { char *o = NULL; srand(1); K_TRY(o = mmd_string_convert(src, ext, fmt, lang)); return k_exited ? NULL : o; }
+char *vp_raw_to_data(char *src_inout, size_t cap, unsigned long ext, int fmt, int lang, const char *dir, size_t *len) {
+	DString *d = d_string_new(src_inout); DString *res = NULL; char *out = NULL; *len = 0; srand(1);
+	K_TRY(res = mmd_d_string_convert_to_data(d, ext, fmt, lang, dir));
+	if (!k_exited && res) { out = malloc(res->currentStringLength + 1); memcpy(out, res->str, res->currentStringLength); out[res->currentStringLength] = 0; *len = res->currentStringLength; d_string_free(res, true); }
+	/* hand the (possibly replaced) source back so that the caller can compare it */
+	snprintf(src_inout, cap, "%s", d->str);
+	use_as_caller(d, "source after convert_to_data");
+	d_string_free(d, true);
+	return out;
+}
+void *vp_engine_new(const char *src, unsigned long ext) { return mmd_engine_create_with_string(src, ext); }
+char *vp_engine_convert(void *e, int fmt) { char *o = NULL; srand(1); K_TRY(o = mmd_engine_convert((mmd_engine *)e, fmt)); return k_exited ? NULL : o; }
+char *vp_engine_parse_export(void *e, int fmt) {
+	DString *out = d_string_new(""); srand(1);
+	K_TRY({ mmd_engine_parse_string((mmd_engine *)e); mmd_engine_export_token_tree(out, (mmd_engine *)e, fmt); });
+	char *r = out->str; d_string_free(out, false); return r;
+}
+char *vp_engine_query(void *e) { char *k = mmd_engine_metadata_keys((mmd_engine *)e); return k ? k : strdup(""); }
+const char *vp_engine_source(void *e) { return ((mmd_engine *)e)->dstr->str; }
+void vp_engine_free(void *e) { mmd_engine_free((mmd_engine *)e, true); }
+/* hash of every piece of process-global mutable state of the library (inventory: nm on the objects; see checks/c05.py) */
+extern long ran_x[]; extern long ran_arr_buf[]; extern long ran_arr_dummy;
+uint64_t vp_global_state(void) {
+	uint64_t h = K_FNV0;
+	h = k_fnv(ran_x, sizeof(long) * 100, h);
+	h = k_fnv(ran_arr_buf, sizeof(long) * 1009, h);
+	long off = (ran_arr_ptr == &ran_arr_dummy) ? -1 : (ran_arr_ptr == &ran_arr_started) ? -2 : (long)(ran_arr_ptr - ran_arr_buf);
+	h = k_fnv(&off, sizeof off, h);
+	h = k_fnv(&ran_arr_started, sizeof(long), h);
+	return h;
+}
+uint64_t vp_hash_regions(const uint64_t *pairs, int n) {
+	uint64_t h = K_FNV0;
+	for (int i = 0; i < n; i++) h = k_fnv((const void *)(uintptr_t)pairs[2 * i], (size_t)pairs[2 * i + 1], h);
+	return h;
+}
